@@ -385,6 +385,10 @@ def _run_pq(ctx, ops, abandon=False):
     ok, _ = ctx.call("pop", q.pop, expect=(IndexError,), monitor="pq_model")
     ctx.check(not ok, "pq_model", "fresh_queue", "new_queue_hands_out_an_item", "a newly created queue handed out an item that was never pushed into it")
     pending = {}  # uid -> priority
+    uid_of = {}
+    mixed_elems = len(ops) % 2 == 1
+    if mixed_elems:
+        ctx.cls("pq:elements_of_mixed_kinds")
     handed = set()
     uid = 0
     pops, tie_pops = 0, 0
@@ -392,7 +396,10 @@ def _run_pq(ctx, ops, abandon=False):
     for op in ops:
         name = op[0]
         if name == "push":
-            ctx.call("push", q.push, ("item", uid), op[1], monitor="pq_model")
+            # queued elements of unrelated kinds (only the priorities are ever compared: tied items need not be mutually orderable)
+            elem = [("item", uid), "item%d" % uid, uid, ("item", str(uid)), frozenset([uid]), (uid, None)][uid % 6] if mixed_elems else ("item", uid)
+            uid_of[repr(elem)] = uid
+            ctx.call("push", q.push, elem, op[1], monitor="pq_model")
             pending[uid] = op[1]
             uid += 1
         elif name in ("pop", "get"):
@@ -402,7 +409,7 @@ def _run_pq(ctx, ops, abandon=False):
             else:
                 if not ctx.check(ok, "pq_model", name, "pop_failed", "pop on a non-empty queue raised IndexError", pending=len(pending)):
                     continue
-                u = it.x[1] if isinstance(it.x, tuple) and len(it.x) == 2 else None
+                u = uid_of.get(repr(it.x))
                 mn = min(pending.values())
                 ctx.check(u in pending, "pq_model", name, "not_pending",
                           "popped item is not pending (never pushed or handed out twice)", item=it.x, already=(u in handed))
@@ -417,7 +424,7 @@ def _run_pq(ctx, ops, abandon=False):
         elif name == "front":
             if pending:
                 ok, it = ctx.call("front", lambda: q.front, monitor="pq_model")
-                u = it.x[1]
+                u = uid_of.get(repr(it.x))
                 ctx.check(u in pending and it.priority == min(pending.values()), "pq_model", "front", "not_minimum",
                           "front is not a pending item of minimum priority", got=it.priority, want=min(pending.values()))
         ok, e = ctx.call("empty", q.empty, monitor="pq_model")
@@ -432,7 +439,7 @@ def _run_pq(ctx, ops, abandon=False):
         ok, it = ctx.call("pop", q.pop, expect=(IndexError,), monitor="pq_model")
         if not ctx.check(ok, "pq_model", "drain", "lost_item", "queue ran empty while items are still pending", pending=len(pending)):
             break
-        u = it.x[1]
+        u = uid_of.get(repr(it.x))
         mn = min(pending.values())
         if not ctx.check(u in pending and it.priority == mn, "pq_model", "drain", "not_minimum_or_duplicate",
                          "drained item is not a pending minimum", got=it.priority, want=mn, item=it.x):
